@@ -41,7 +41,7 @@ CHECKS = {
    note='PARTIAL by nature: machine-level memory safety of the unsafe pointer reads is modelled as index bounds and observed offsets; no sanitizer result is claimed.'),
  'C13': dict(
    technique='Coq proof by exhaustive case analysis of the return-value dispatch + structural lemmas of the lexing loop + differential run with recording callbacks',
-   text='Theorems C13_construct_matches_table (every CallbackRetVal/SkipRetVal impl and value shape maps to the documented outcome), C13_decision_determines_item, C13_skip_transparent, C13_bump_extends_and_excludes (closed). Compiled definitions with one callback per impl (14+4), any-token callbacks, an error callback and bumping callbacks (str and byte sources) are run under both generators; every leaf of every corpus definition carries a callback exactly when its attribute declares one (independent scan); per next() the result, chosen variant, error value, span and the log of callback invocations (count, observed span and slice) are compared with the model.',
+   text='Theorems C13_construct_matches_table (every CallbackRetVal/SkipRetVal impl and value shape maps to the documented outcome), C13_decision_determines_item, C13_skip_transparent, C13_bump_extends_and_excludes, C13_inline_body_complete (of an inline callback the derive keeps every token of the body; finding F12, regression lemma C13_old_inline_body_drops_tokens) (closed). Compiled definitions with one callback per impl (14+4), any-token callbacks, an error callback and bumping callbacks (str and byte sources) are run under both generators; every leaf of every corpus definition carries a callback exactly when its attribute declares one (independent scan); per next() the result, chosen variant, error value, span and the log of callback invocations (count, observed span and slice) are compared with the model.',
    design='DESIGN.md section 7 (C13)',
    note='construct is a hand mirror of src/internal.rs (29 value shapes); its tie to the code is the compiled corpus. Callbacks are modelled as an oracle (decision, bump).'),
  'C15': dict(
